@@ -69,6 +69,96 @@ let two_sx (rest : string) =
   | L [a; b] -> (a, b)
   | _ -> failwith "expected two s-expressions"
 
+(* ---- decoder model: type environment, type map, canonical printing of dval + heap ---- *)
+let rec gtype_of (x : sx) : gtype =
+  match x with
+  | A "b" -> TBool | A "f32" -> TF32 | A "f64" -> TF64 | A "s" -> TStr | A "t" -> TTime | A "bin" -> TBytes
+  | A "if" -> TIface | A "o" -> TOther
+  | L [A "i"; A k] -> TInt (Driver_kinds.kind_of_string k)
+  | L [A "st"; n] -> TStruct (name_of n)
+  | L [A "p"; t] -> TPtr (gtype_of t)
+  | L [A "sl"; t] -> TSlice (gtype_of t)
+  | L [A "mp"; k; v] -> TMap (gtype_of k, gtype_of v)
+  | _ -> failwith "gtype"
+let tenv_of (x : sx) =
+  match x with
+  | L (A "te" :: ts) ->
+    List.map (fun t -> match t with
+      | L (n :: fs) -> (name_of n, List.map (fun f -> match f with L [fn; ft] -> (name_of fn, gtype_of ft) | _ -> failwith "field") fs)
+      | _ -> failwith "te entry") ts
+  | _ -> failwith "te"
+let typmap_of (x : sx) =
+  match x with
+  | L (A "tm" :: es) -> List.map (fun e -> match e with L [k; t] -> (name_of k, gtype_of t) | _ -> failwith "tm entry") es
+  | _ -> failwith "tm"
+
+let utf8_of_runes (rs : Model.z list) : string =
+  let b = Buffer.create 16 in
+  List.iter (fun r -> Buffer.add_utf_8_uchar b (Uchar.of_int (int_of_z r))) rs;
+  Buffer.contents b
+let kind_name k = match k with
+  | KInt -> "int" | KInt8 -> "int8" | KInt16 -> "int16" | KInt32 -> "int32" | KInt64 -> "int64"
+  | KUint -> "uint" | KUint8 -> "uint8" | KUint16 -> "uint16" | KUint32 -> "uint32" | KUint64 -> "uint64"
+let rec type_str (t : gtype) : string =
+  match t with
+  | TBool -> "bool" | TInt k -> kind_name k | TF32 -> "float32" | TF64 -> "float64" | TStr -> "string"
+  | TTime -> "time" | TBytes -> "bytes" | TStruct n -> utf8_of_runes n | TPtr t -> "*" ^ type_str t
+  | TSlice t -> "[]" ^ type_str t | TMap (k, v) -> "map[" ^ type_str k ^ "]" ^ type_str v | TIface -> "iface" | TOther -> "other"
+
+let print_dval (heap : rcell list) (root : dval) : string =
+  let ids : (int, int) Hashtbl.t = Hashtbl.create 16 in
+  let rec go b (v : dval) =
+    match v with
+    | DNil -> Buffer.add_string b "nil"
+    | DBool x -> Buffer.add_string b (if x then "true" else "false")
+    | DInt (k, z) -> Buffer.add_string b ("(" ^ kind_name k ^ " " ^ hex_of_z z ^ ")")
+    | DF32 x -> Buffer.add_string b (if is_nan32 x then "(float32 nan)" else "(float32 " ^ hex_of_z x ^ ")")
+    | DF64 x -> Buffer.add_string b (if is_nan64 x then "(float64 nan)" else "(float64 " ^ hex_of_z x ^ ")")
+    | DStr rs -> Buffer.add_string b ("S(" ^ string_of_runes rs ^ ")")
+    | DBytes bs -> Buffer.add_string b ("B(" ^ hex_of_bytes bs ^ ")")
+    | DTime (s, n) -> Buffer.add_string b ("(time " ^ hex_of_z s ^ " " ^ hex_of_z n ^ ")")
+    | DPtr (r, ty) ->
+      let r = int_of_nat r in
+      (match Hashtbl.find_opt ids r with
+       | Some id -> Buffer.add_string b ("#" ^ string_of_int id)
+       | None ->
+         let id = Hashtbl.length ids in
+         Hashtbl.add ids r id;
+         Buffer.add_string b ("(#" ^ string_of_int id ^ "=");
+         (match List.nth_opt heap r with
+          | Some (RObj (n, Some fs)) -> go b (DStructV (n, fs))
+          | _ -> Buffer.add_string b "?incomplete");
+         Buffer.add_string b ")")
+    | DStructV (ty, fs) ->
+      Buffer.add_string b (utf8_of_runes ty ^ "{");
+      List.iteri (fun i (n, x) -> if i > 0 then Buffer.add_char b ' '; Buffer.add_string b (utf8_of_runes n ^ ":"); go b x) fs;
+      Buffer.add_string b "}"
+    | DSlice (e, items) ->
+      Buffer.add_string b ("[" ^ type_str e ^ ":");
+      List.iter (fun x -> Buffer.add_char b ' '; go b x) items;
+      Buffer.add_string b "]"
+    | DMapV (k, v, es) ->
+      Buffer.add_string b ("m[" ^ type_str k ^ " " ^ type_str v ^ ":");
+      let keyed = List.map (fun (kk, vv) ->
+        let kb = Buffer.create 16 in
+        let saved = Hashtbl.copy ids in
+        Hashtbl.reset ids; go kb kk; Hashtbl.reset ids; Hashtbl.iter (Hashtbl.add ids) saved;
+        (Buffer.contents kb, vv)) es in
+      let sorted = List.sort (fun (a, _) (c, _) -> compare a c) keyed in
+      List.iter (fun (ks, vv) -> Buffer.add_string b (" " ^ ks ^ "=>"); go b vv) sorted;
+      Buffer.add_string b "]" in
+  let b = Buffer.create 256 in
+  go b root; Buffer.contents b
+
+let three_sx (rest : string) =
+  (* "(te ...) (tm ...) hex" *)
+  let n = String.length rest in
+  let last_sp = String.rindex rest ' ' in
+  let hex = String.sub rest (last_sp + 1) (n - last_sp - 1) in
+  match parse_sx ("(" ^ String.sub rest 0 last_sp ^ ")") with
+  | L [a; b] -> (a, b, hex)
+  | _ -> failwith "expected (te) (tm) hex"
+
 let handle (line : string) : string =
   let sp = try String.index line ' ' with Not_found -> String.length line in
   let cmd = String.sub line 0 sp in
@@ -80,6 +170,14 @@ let handle (line : string) : string =
   | "encw" ->   (* the sizes of the Write calls *)
     let (nm, v) = two_sx rest in
     res_str (fun ws -> "ok " ^ String.concat "," (List.map (fun w -> string_of_int (List.length w)) ws)) (encode_writes (namemap_of nm) (gval_of v))
+  | "dec" ->
+    let (te, tm, hex) = three_sx rest in
+    let bs = bytes_of_hex hex in
+    (match decode (tenv_of te) (typmap_of tm) bs with
+     | Ok ((v, r), st) -> Printf.sprintf "ok %s %d" (print_dval st.dheap v) (List.length bs - List.length r)
+     | Err _ -> "err"
+     | Panic -> "unmodelled"
+     | Fuel -> "fuel")
   | "rootelem" -> string_of_runes (array_root_elem_name (runes_of_string rest))
   | "lower" -> string_of_runes (lower_name (runes_of_string rest))
   | _ -> "unknown-case " ^ line
